@@ -980,6 +980,11 @@ class Node:
                               exc_info=True)
             if not msg.header.is_request:
                 return
+            if message_id not in self._origin_waiting_answer:
+                # the failure came after an answer had already gone out
+                # (e.g. a request handler that answers and then raises);
+                # a request is never answered twice
+                return
             err = self._generate_answer(conn, msg)
             err.result_code = constants.E_RESULT_CODE_DIAMETER_UNABLE_TO_COMPLY
             err.error_message = "Message handling error"
